@@ -35,6 +35,41 @@ TEXT = {
             'the state; InvalidWrite without a write call; the drain(..k) panic site is unreachable. try_write of the '
             'implementation is driven through a scripted stream with the same histories and compared per call.',
             'DESIGN.md section 5 C06', 'Coq proof (invariant by induction over operations) + differential run'),
+    'C01': ('Coq theorems, unbounded in stream length, number of requests, cut positions and empty reads: (spec) runT on '
+            'a ++ b = runT on a continued on carry ++ b, hence feeding any chunking = the whole-stream parser; (impl model, '
+            'mirroring HttpConnection field by field with explicit panic sites) one try_read on a chunk = the spec run on '
+            'carry ++ chunk with the same deliveries, interim responses and error (simulation through a loop invariant; the '
+            'loop fuel is never exhausted), so every sequence of read results allowed by recvmsg, EAGAIN/EINTR/EOF '
+            'included, observes exactly parse_stream of the concatenated data; two schedules of one stream observe the same. '
+            'Parametric in 2 <= BUF < 2^32. Tie: literal tables; extracted model vs implementation per call on grammar '
+            'streams x schedules on the 1024- and 32-byte builds; metamorphic oracle on the implementation alone.',
+            'DESIGN.md section 5 C01', 'Coq proof (refinement ConnImpl to ConnSpec + batch=incremental by induction) + differential run'),
+    'C04': ('Coq theorems for every limit L and buffer size: at the blank line, size-limit error (L,n) iff n > L with no '
+            'byte after the terminator needed; every delivered body has the declared length <= L (invariant over the run); '
+            'a terminated line is rejected for length iff line+CRLF > BUF, an unterminated one iff BUF bytes arrived; carried to '
+            'every segmentation of the implementation model by the C01 refinement. The server-side clauses (limit fixed at '
+            'accept time, 400 text) are exercised by the server correspondence only. Tie: BUFFER_SIZE/MAX_PAYLOAD_SIZE '
+            'literals; differential run at L in the property\'s set with the stream cut right after the header terminator and '
+            'line lengths 1000..1100 at varying offsets; the iff is also evaluated on the implementation alone.',
+            'DESIGN.md section 5 C04', 'Coq proof (decision rules as bi-implications + run invariant) + differential run'),
+    'C11': ('Coq theorems: whenever try_read reports a ParseError, from any state and for any read result, the parser fields '
+            'equal those of a new connection; and every later sequence of reads delivers the same requests, queues the same '
+            'interim responses and reports the same first error as a new connection with the same limit (via the C01 '
+            'refinement). Differential run on error prefix x continuation x schedule; implementation-only oracle: from the '
+            'first ParseError on a freshly created HttpConnection is fed the same bytes and descriptors and must behave '
+            'identically (this replays the defect repaired by fix commit a290849).',
+            'DESIGN.md section 5 C11', 'Coq proof (reset lemma + refinement) + differential run + fresh-connection shadow oracle'),
+    'C12': ('Coq theorems: list equation files(delivered requests) ++ files held = files held before ++ files received, in '
+            'arrival order, over every error-free sequence of reads (EOF reads included); all pending descriptors go to the '
+            'first request completed by a read, none to later ones; dropped on ParseError. Descriptors are opaque tokens in the '
+            'model; closing on drop is Rust ownership and is checked at run time only (memfd per tag, fcntl after drop).',
+            'DESIGN.md section 5 C12', 'Coq proof (conservation invariant by induction over reads) + differential run with real descriptors'),
+    'C13': ('Coq theorems: a step emits Continue v iff it is the blank line ending a header block with expect set and '
+            '0 < Content-Length <= L, exactly one, with the request\'s version, with no byte after the terminator needed; over any '
+            'stream the interim responses are in order those of delivered requests with body and expect flag plus the one whose '
+            'body is awaited; carried to the implementation model\'s response queue for every schedule by C01. The server-level '
+            'clause (client receives it without sending the body) is exercised by the server correspondence.',
+            'DESIGN.md section 5 C13', 'Coq proof (iff + run invariant) + differential run with output flushed between header block and body'),
 }
 
 NOTE = ('Trusted: Coq kernel; hand-written model tied to /repo by literal regeneration (gen/srclit.py) and '
